@@ -18,6 +18,9 @@ fn compute_facts_hash(facts: &TypedFacts) -> u64 {
 
     for (key, value) in sorted_facts {
         key.hash(&mut hasher);
+        // The variant is part of the key: Integer(5), Float(5.0) and String("5")
+        // share the same text but evaluate differently.
+        std::mem::discriminant(value).hash(&mut hasher);
         value.as_str().hash(&mut hasher);
     }
 
